@@ -146,6 +146,11 @@ def _drive(job):
                         loose_listing = True
             elif op == 'h':
                 e.has_non_zero_cost()
+            # whichever operation did it: has the list edit frozen its script (matrix freed) while a listed sub-edit is
+            # still loose?  (bounds() / has_non_zero_cost() list the script too once the matrix is complete)
+            if not loose_listing and type(e).__name__ == 'EditDistance' and getattr(e, 'edit_matrix', 0) is None:
+                if any(not x.bounds().definitive() for x in e.edits()):
+                    loose_listing = True
         got = _finish(e)
         if got[0] != ref[0]:
             fails.append({'what': f"final cost {got[0]} after operations {ops!r} (quiet={quiet}) differs from {ref[0]} "
